@@ -460,6 +460,9 @@ def hier_ctor_event(rng):
         if t[0] not in o_py:
             o_py.append(t[0])
     inner = {o: [t[1] for t in pyrows if t[0] == o] for o in o_py}
+    product_now = all(inner[o] == inner[o_py[0]] for o in o_py)          # after a shuffle the parents may hold the same labels in different orders
+    if route in ('ih_from_product', 'ih_from_index_items_shared') and not product_now:
+        route = 'ih_from_labels'
     if route == 'ih_from_labels':
         fn = lambda: cls.from_labels(pyrows)
     elif route == 'ih_from_type_blocks':
